@@ -44,6 +44,21 @@ macro_rules! api_program {
                 s.finish()
             }
 
+            /// marker-trait parity as a run-time value: the inherent method exists only when the bound holds and
+            /// wins over the trait fallback
+            struct MarkerProbe<T>(std::marker::PhantomData<T>);
+            trait MarkerFallback {
+                fn is_unpin(&self) -> bool { false }
+                fn is_send(&self) -> bool { false }
+                fn is_sync(&self) -> bool { false }
+            }
+            impl<T> MarkerFallback for MarkerProbe<T> {}
+            impl<T: Unpin> MarkerProbe<T> { fn is_unpin(&self) -> bool { true } }
+            #[allow(dead_code)]
+            struct SendOnly<T>(std::marker::PhantomData<T>);
+            impl<T: Send> MarkerProbe<SendOnly<T>> { fn is_send(&self) -> bool { true } }
+            impl<T: Sync> MarkerProbe<(SendOnly<T>, ())> { fn is_sync(&self) -> bool { true } }
+
             #[derive(Clone, PartialEq, Debug)]
             #[repr(align(128))]
             struct A128(u8);
@@ -110,6 +125,23 @@ macro_rules! api_program {
                     x ^= x << 17;
                     x
                 };
+                {
+                    use std::marker::{PhantomData, PhantomPinned};
+                    // `Rc<T>` is `Unpin` for every `T` (moving the handle never moves the value), never `Send`/`Sync`
+                    log(format!(
+                        "markers rc unpin(pinned payload) {} unpin(u8) {} send {} sync {}",
+                        MarkerProbe::<Rc<PhantomPinned>>(PhantomData).is_unpin(),
+                        MarkerProbe::<Rc<u8>>(PhantomData).is_unpin(),
+                        MarkerProbe::<SendOnly<Rc<u8>>>(PhantomData).is_send(),
+                        MarkerProbe::<(SendOnly<Rc<u8>>, ())>(PhantomData).is_sync(),
+                    ));
+                    log(format!(
+                        "markers weak unpin(u8) {} send {} sync {}",
+                        MarkerProbe::<Weak<u8>>(PhantomData).is_unpin(),
+                        MarkerProbe::<SendOnly<Weak<u8>>>(PhantomData).is_send(),
+                        MarkerProbe::<(SendOnly<Weak<u8>>, ())>(PhantomData).is_sync(),
+                    ));
+                }
                 shape_trip::<()>("unit", (), |_| 0);
                 shape_trip::<[u8; 0]>("empty-array", [], |_| 0);
                 shape_trip::<u8>("u8", (seed % 251) as u8, |v| *v as u64);
